@@ -29,14 +29,14 @@ FUNCTIONS = [
 ]
 ASSUMPTIONS = [
     "a coroutine is verified as a sequential procedure (vc.drive): `await asyncio.sleep(d)` advances the virtual clock by exactly d, or raises CancelledError there if the task is cancelled; between two awaits nothing else runs (asyncio is cooperative)",
-    "random.uniform(a, b) lies between a and b; repetition count 0..4 as in the property's quantifier (enumerated); all delays, the cyclic period and the TTL symbolic",
+    "random.uniform(a, b) lies between a and b; the repetition count, all delays, the cyclic period and the TTL are symbolic (the repetition loop is verified by a loop contract: one arbitrary repetition k waits 2**k * base and offers once; 2**k is the uninterpreted pow2 with its defining equations); whole-trace statement = induction over the repetitions (trusted rule) from init/step/exit",
     "the cyclic phase is verified by a loop contract (one arbitrary iteration); Task.cancel() delivers CancelledError at the task's current await (event-loop model)",
     "'nothing follows a StopOffer': offers are only produced by _send_offer; it is proved to send nothing but a StopOffer once the instance is stopped, the offer task is proved to send nothing after its cancellation except the one StopOffer, and stop() is proved to clear readiness",
 ]
 BOUNDED = []
 EXPLANATION = "phases, delays and cancellation at every await are covered symbolically; one helper (SimpleService.stop_announce) is the open known finding D6, hence level other"
 
-MAX_REP = (0, 1, 2, 3, 4)
+NATIVE_MAX_REP = 6
 
 
 class IWorld:
@@ -49,7 +49,9 @@ class IWorld:
         t.INITIAL_DELAY_MIN = vc.real(name + ".initial_min", 0)
         t.INITIAL_DELAY_MAX = vc.real(name + ".initial_max", 0)
         vc.assume(t.INITIAL_DELAY_MIN <= t.INITIAL_DELAY_MAX)
-        t.REPETITIONS_MAX = vc.choice(name + ".repetitions", MAX_REP)
+        # any number of repetitions (the repetition loop is verified by a loop contract);
+        # native runs execute the real loop, so they draw a small count
+        t.REPETITIONS_MAX = vc.int(name + ".repetitions", 0, NATIVE_MAX_REP if vc.native else None)
         t.REPETITIONS_BASE_DELAY = vc.real(name + ".base_delay", 0)
         self.cyclic = vc.bool(name + ".cyclic")
         if self.cyclic:
@@ -77,7 +79,14 @@ def _while_head(vc, v, entering):
     vc.stash("offer.cyclic_iteration", entering)
 
 
-LOOPS = {("someip.sd.ServiceInstance._offer_task", 1): {"head": _while_head}}
+def _for_head(vc, v, entering):
+    # the repetition loop, cut at an arbitrary repetition k (entering) or left after the last one
+    vc.stash("offer.repetition", (entering, v["$k"]))
+
+
+# loop 0: `for i in range(REPETITIONS_MAX)` (no invariant needed: the body reads i and the
+# timings only, and changes nothing but the ghost trace); loop 1: the cyclic `while True`
+LOOPS = {("someip.sd.ServiceInstance._offer_task", 0): {"head": _for_head}, ("someip.sd.ServiceInstance._offer_task", 1): {"head": _while_head}}
 
 
 def ob_offer_task(vc):
@@ -117,9 +126,41 @@ def ob_offer_task(vc):
         return
     vc.check(log[0][0] == "sleep" and t.INITIAL_DELAY_MIN <= log[0][1] and log[0][1] <= t.INITIAL_DELAY_MAX, "offer_task.initial_delay_inside_the_window")
     expected = [("send", offer, None)]
-    for i in range(t.REPETITIONS_MAX):
-        expected.append(("sleep", (2**i) * t.REPETITIONS_BASE_DELAY))
-        expected.append(("send", offer, None))
+    rep = None if vc.native else vc.stashed("offer.repetition")
+    if not vc.native:
+        # the loop contract: every path that gets past the initial wait reaches the repetition loop
+        vc.check(rep is not None, "offer_task.reaches_the_repetition_phase")
+        if rep is None:
+            return
+    if rep is not None and rep[0]:
+        # (step) an ARBITRARY repetition k: reached with exactly the first offer sent (the
+        # earlier repetitions are cut away); it waits 2**k * base and then offers exactly once
+        k = rep[1]
+        vc.cover("repetition")
+        vc.check(k >= 0 and k < t.REPETITIONS_MAX, "offer_task.repetition.at_most_the_configured_number")
+        vc.check_eq(log[1:2], expected, "offer_task.first_offer_right_after_the_initial_wait")
+        vc.check(inst._can_answer_offers or ("cancel",) in log, "offer_task.ready_once_the_first_offer_is_out")
+        it = log[2:]
+        if ("cancel",) in it:
+            vc.cover("cancelled-in-a-repetition")
+            vc.check(vc.is_exc(o, asyncio.CancelledError), "offer_task.cancellation_propagates")
+            vc.check(not inst._can_answer_offers, "offer_task.cancelled.not_ready_any_more")
+            vc.check_eq(it[0], ("cancel",), "offer_task.cancelled.only_at_an_await")
+            if w.cyclic:
+                vc.check_eq(it[1:], [("send", stop_offer, None)], "offer_task.cyclic.cancelled_after_offering_sends_exactly_one_stop_offer")
+            else:
+                vc.check_eq(it[1:], [], "offer_task.non_cyclic.cancelled_sends_nothing_itself")
+        else:
+            vc.check(o.kind == "cut", "offer_task.repetition.continues_with_the_next_one")
+            vc.check_eq(it, [("sleep", (2**k) * t.REPETITIONS_BASE_DELAY), ("send", offer, None)], "offer_task.repetition.waits_the_doubled_delay_then_offers_once")
+        return
+    if vc.native:
+        for i in range(t.REPETITIONS_MAX):
+            expected.append(("sleep", (2**i) * t.REPETITIONS_BASE_DELAY))
+            expected.append(("send", offer, None))
+    else:
+        # (exit) the loop is left only after exactly REPETITIONS_MAX repetitions
+        vc.check_eq(rep[1], t.REPETITIONS_MAX, "offer_task.repetition.exactly_the_configured_number")
     if vc.native and w.cyclic:
         # a replay runs the real task until it is cancelled: the cyclic phase repeats
         for _ in range(40):
@@ -268,6 +309,6 @@ HARNESSES = [
 ] + SA.SEND_QUEUE_OBLIGATIONS
 
 EXPECT_COVERS = {
-    "ob_offer_task": ["cancelled-in-initial-wait", "cyclic-iteration", "finished", "cancelled"],
+    "ob_offer_task": ["cancelled-in-initial-wait", "repetition", "cancelled-in-a-repetition", "cyclic-iteration", "finished", "cancelled"],
     "ob_instance_start_stop": ["cyclic", "non-cyclic"],
 }
